@@ -5,7 +5,7 @@ import json, os, subprocess, sys
 name, pid, need = sys.argv[1], sys.argv[2], sys.argv[3]
 d = f'/verif/seeded/{name}'
 c = json.load(open(f'{d}/confirmation.json'))
-m = {"property": pid, "breaks": pid, "round": 4 if name.endswith("d") else 3 if name.endswith("c") else (2 if name.endswith("b") else 1), "needs_to_manifest": need,
+m = {"property": pid, "breaks": pid, "round": 5 if name.endswith("e") else 4 if name.endswith("d") else 3 if name.endswith("c") else (2 if name.endswith("b") else 1), "needs_to_manifest": need,
      "produced_by": "independent sub-agent given only the property text (round 2: plus the code area to avoid) and a scratch worktree",
      "confirmed_by_me": {"patch_applies_to_repo_head": c["applies_to_repo_head"],
                          "existing_test_suite_passes_with_change": c["ctest_with_change"],
